@@ -544,8 +544,12 @@ func TestVerif_C14_Windows(t *testing.T) {
 			}
 			for s := range specs {
 				if fmt.Sprint(m.receives[s]) != fmt.Sprint(want[s]) {
-					t.Fatalf("member %d: state %d received messages %v, expected %v (messages delivered while it was current, each once, in order); all receives %v; %s",
-						m.id, s, m.receives[s], want[s], m.receives, desc)
+					at := 0
+					for at < len(want[s]) && at < len(m.receives[s]) && want[s][at] == m.receives[s][at] {
+						at++
+					}
+					t.Fatalf("member %d: state %d received %d messages, %d arrived while it was current (each must be handed to it exactly once, in order); first difference at position %d: arrived %v.. received %v..; received per state: %v; %s",
+						m.id, s, len(m.receives[s]), len(want[s]), at, c14Head(want[s][at:]), c14Head(m.receives[s][at:]), c14Counts(m.receives), desc)
 				}
 			}
 		}
@@ -561,4 +565,19 @@ func c14Prev(next []uint64, s int, start uint64) uint64 {
 		return start
 	}
 	return next[s-1]
+}
+
+func c14Head(l []int) []int {
+	if len(l) > 6 {
+		return l[:6]
+	}
+	return l
+}
+
+func c14Counts(r [][]int) []int {
+	out := make([]int, len(r))
+	for i, l := range r {
+		out[i] = len(l)
+	}
+	return out
 }
